@@ -170,8 +170,8 @@ def _c14_vm_sample(d, tier, coq, build, want=300):
 
 CONFIG = {
     "properties_file": "Properties/C14.v",
-    "proof_files": ["Base/Prelude.v", "Proofs/Referrers.v", "Proofs/Merge.v", "Proofs/MergeLin.v", "Proofs/MergeThm.v"],
-    "model_files": ["Generated/GC14.v", "Model/Referrers.v", "Model/Merge.v"],
+    "proof_files": ["Base/Prelude.v", "Proofs/Referrers.v", "Proofs/Merge.v", "Proofs/MergeLin.v", "Proofs/MergeThm.v", "Proofs/Delivery.v"],
+    "model_files": ["Generated/GC14.v", "Model/Referrers.v", "Model/Merge.v", "Model/Delivery.v"],
     "extract": "XC14.v",
     "ml_main": "c14_main.ml",
     "harness": "c14",
@@ -182,7 +182,7 @@ CONFIG = {
     "timeout_thorough": 3000,
     "assumptions": [
         "a descriptor is abstracted to its key (descriptor.FromOCI: media type x digest x size, interned injectively by the harness, 0 = all-zero), its artifact type and the rest of its payload; changes name non-zero descriptors (pushWithIndexing/deleteWithIndexing only index the three manifest media types) - hypothesis changes_nonempty / guard of EGet",
-        "Merge: the delivery of a batch result to its members (close of the status channel / len(items)-1 buffered sends, received later by each waiter) is one step EComplete of the transition system; which waiter receives the buffered main status is an event parameter (ERecvMain t); the real channel mechanics are exercised by the M runs under testing/synctest, all schedules of up to 3 (thorough: 5) callers enumerated",
+        "Merge: in the transition system the delivery of a batch result to its members is one step EComplete; Model/Delivery.v models the real hand-over (close of the buffered-1 status channel / len(items)-1 blocking sends, one receive per waiter, late receivers after the swap) and C14_delivery_refines_complete proves that every maximal channel-level run has exactly the effect of EComplete; what is NOT proved is the full simulation of the interleaved system (channel steps of one batch interleaved with lock regions of the next batch): it rests on the old status channel being unreachable from the Merge object after the swap; the real channel mechanics are exercised by the M runs under testing/synctest, all schedules of up to 3 (thorough: 5) callers enumerated",
         "one referrers tag = one copy of the transition system; different tags touch disjoint Pool keys, Merge objects and registry tags (theorem C14_tags_independent is about the product); index manifests of different tags are distinct objects",
         "registry: a failed HTTP exchange has no effect; DELETE of a manifest by digest also drops tags pointing at it; index manifests are content-addressed (modelled by list equality)",
         "Go runtime scheduling / memory model, sync.Mutex, channels, sync/atomic CompareAndSwap, encoding/json and net/http are modelled, not verified; interleavings of the visible events (lock regions, HTTP exchanges) are quantified over",
